@@ -631,6 +631,16 @@ class PreAuthenticated(BaseClientHandler):
 
     ##################################################################
     #
+    async def do_idle(self, cmd: IMAPClientCommand) -> bool:
+        """
+        There is nothing to idle on before a mailbox can be selected, and
+        nobody to take the `DONE` (it would never get past the parser, and
+        the IDLE would never be answered.)
+        """
+        raise No("Client must be authenticated first")
+
+    ##################################################################
+    #
     async def do_login(self, cmd: IMAPClientCommand) -> None:
         """
         Process a LOGIN command with a username and password from the IMAP
